@@ -1762,7 +1762,7 @@ fn check_sockets(st: &mut CStats, sockets_run: &mut u64, sockets_unavailable: &m
     let rt = tokio::runtime::Builder::new_current_thread().enable_all().build().unwrap();
     type Framing = (&'static str, fn(&mut Builder), Vec<usize>);
     let framings: Vec<Framing> = vec![
-        ("default framing", |_b| {}, vec![0, 1, 300, 70_000]),
+        ("default framing", |_b| {}, vec![0, 1, 300, 70_000, 8_200_000]),
         ("2-byte length prefix", |b| { b.length_field_length(2); }, vec![0, 1, 300, 60_000]),
         ("8-byte length prefix", |b| { b.length_field_length(8); }, vec![0, 1, 300, 70_000]),
         ("little-endian length prefix", |b| { b.little_endian(); }, vec![0, 1, 300, 70_000]),
